@@ -203,7 +203,8 @@ DoWhole(e) ==
          Exp(k) == EdgeExpect("acc", e.rows[k][1], e.rows[k][2], F, F)
          V(k) == StepVerdict(Exp(k), <<e.rows[k][3], e.rows[k][4]>>)
          fails == IF ~ok THEN {}
-                  ELSE IF e.raised # "" THEN (IF skipped /\ e.raised = "AttributeError" THEN {} ELSE {"ACC.raised"})
+                  \* on a skipped step DifferentTissueException is accepted (whole_tissue_velocity lets it through as well)
+                  ELSE IF e.raised # "" THEN (IF skipped /\ e.raised \in {"AttributeError", "DifferentTissueException"} THEN {} ELSE {"ACC.raised"})
                   ELSE IF \E k \in KS : V(k) = "bad" THEN {"ACC.per_edge_sum"} ELSE {}
          kf == IF ok /\ ((skipped /\ e.raised = "AttributeError") \/ (e.raised = "" /\ \E k \in KS : V(k) = "kf"))
                THEN {"KF_PerEdgeSkippedStep:ACC.raised"} ELSE {}
